@@ -106,3 +106,12 @@ Theorem C18_include_chain_fails : forall load_file a k fid b doc t1 n e,
   process load_file (ISchema (a ++ (k, fid) :: b) []) doc = Err e.
 Proof. exact include_chain_fails. Qed.
 Print Assumptions C18_include_chain_fails.
+
+(* ---- identity laws of the merge ---- *)
+Theorem C18_combine_nil_r : forall base, combine base [] = base.
+Proof. exact combine_nil_r. Qed.
+Print Assumptions C18_combine_nil_r.
+
+Theorem C18_combine_nil_l : forall child, NoDup (map fst child) -> combine [] child = child.
+Proof. exact combine_nil_l. Qed.
+Print Assumptions C18_combine_nil_l.
